@@ -22,6 +22,7 @@
 #include	<stdlib.h>
 #include	<string.h>
 #include	<limits.h>
+#include	<float.h>
 #include	<math.h>
 
 #include	"sndfile.h"
@@ -352,7 +353,7 @@ double64_be_write (double in, unsigned char *out)
 
 	memset (out, 0, sizeof (double)) ;
 
-	if (fabs (in) < 1e-30)
+	if (fabs (in) < DBL_MIN)
 		return ;
 
 	if (in < 0.0)
@@ -392,7 +393,7 @@ double64_le_write (double in, unsigned char *out)
 
 	memset (out, 0, sizeof (double)) ;
 
-	if (fabs (in) < 1e-30)
+	if (fabs (in) < DBL_MIN)
 		return ;
 
 	if (in < 0.0)
